@@ -598,6 +598,14 @@ def stepRest (d : DW) (line : String) : DW × String :=
         | (fw', none) => ({ d with fw := fw' }, "raise"))
      | none => (d, "bad-op"))
   | ["fsnap"] => (d, fworldSnapshot d.fw)
+  | ["funsubk", k] =>
+    -- unsubscribe the first subscribed observer of the given kind
+    (match parseFKind k with
+     | some kind =>
+       (match d.fw.subs.find? (fun id => (d.fw.heap[id]?.map (·.kind)) == some kind) with
+        | some id => let r := d.fw.unsubscribe id; ({ d with fw := r.1 }, if r.2 then toString id else "raise")
+        | none => (d, "none"))
+     | none => (d, "bad-op"))
   | ["funsub", k] =>
     -- `dispatcher.unsubscribe(observer)`: the observer leaves the subscriber list (and is no longer found by create_or_get_observer);
     -- the object itself lives on, unchanged from now on
